@@ -340,7 +340,11 @@ func (r *resource) ResetEvent() {
 func (r *resource) QueryEvent(cb func(QueryRequest)) {
 	qsubj := nats.NewInbox()
 	ch := make(chan *nats.Msg, queryEventChannelSize)
-	sub, err := r.s.nc.ChanSubscribe(qsubj, ch)
+	var sub *nats.Subscription
+	err := errNotStarted
+	if nc := r.s.Conn(); nc != nil {
+		sub, err = nc.ChanSubscribe(qsubj, ch)
+	}
 	if err != nil {
 		cb(nil)
 		r.s.errorf("Failed to subscribe to query event: %s", err)
